@@ -61,7 +61,7 @@ func CharSpecOf(r spg.CharRecipe) CharSpec {
 // WLSpec describes a wordlist recipe. Sep: "char" (SeparatorChar, SeparatorFunc nil),
 // "recipe" (NewSFFunction(SepRecipe)), or a preset name.
 type WLSpec struct {
-	Words     [][]int   `json:"words"` // input list as given to NewWordList
+	Words     [][]int   `json:"words"`  // input list as given to NewWordList
 	NoList    int       `json:"nolist"` // 1: recipe literal without list; 2: new(WordList)
 	Len       int       `json:"len"`
 	Cap       string    `json:"cap"`
